@@ -83,7 +83,7 @@ func NewTDistribution(nu Scalar, mu Vector, sigma Matrix) (*TDistribution, error
   result := TDistribution{
     Nu      : nu.CloneScalar(),
     Mu      : mu.CloneVector(),
-    Sigma   : sigma,
+    Sigma   : sigma.CloneMatrix(),
     SigmaInv: sigmaInv,
     SigmaDet: sigmaDet,
     np      : np,
